@@ -53,6 +53,14 @@ def bound_arg(prog, func, call, name, default=None):
         m, _ = bind_args(call, r.targets[0])
         if m and name in m:
             return m[name]
+    elif r.kind in ("exact", "cha", "typed") and r.targets:
+        # a method with overrides: every implementation the call may reach must bind the same argument to `name`
+        got = []
+        for t in r.targets:
+            m, _ = bind_args(call, t)
+            got.append(m.get(name) if m else None)
+        if got and got[0] is not None and all(g is got[0] for g in got):
+            return got[0]
     return default
 
 
